@@ -1,12 +1,14 @@
 #!/usr/bin/env python3
-"""Regenerate coq/_CoqProject + Makefile and build the given targets.
-usage: tools/coqmk.py [targets...]   (default: all)"""
+"""Build Coq targets (relative to coq/) with the concurrent-safe builder.
+usage: tools/coqmk.py C15/SamplersProofs.vo ...   (no args: everything)"""
 import sys, os
 sys.path.insert(0, os.path.dirname(os.path.abspath(__file__)))
 import vlib
 c = vlib.Context("BASE")
-c.coq_makefile()
-t = sys.argv[1:]
-rc, out = vlib.sh("timeout 3000 make -k -j%d %s" % (vlib.NCPU, " ".join(t)), cwd=vlib.COQDIR)
-print(out[-6000:])
-sys.exit(rc)
+t = sys.argv[1:] or [f + "o" for f in c._coq_files()]
+ok, outs, failed = c.coq_make(t)
+for k, v in outs.items():
+    if v.strip():
+        print("###", k); print(v[-6000:])
+print("OK" if ok else "FAILED: %s" % failed)
+sys.exit(0 if ok else 1)
